@@ -169,3 +169,68 @@ func c11WeightedFlag(c *Ctx, rule string) {
 	}
 	c.Check(rule, fnName(fn)+"|depends-on-candidate-counts-only", len(other) == 0 && nCount > 0, fn.Pos(), fmt.Sprintf("other fields the flag depends on: %v", other))
 }
+
+// c11WeightNotAFilter implements C11.weight-not-a-filter. "An address with weight 0 is never served while the response
+// still reports that the name exists": the row parser decides whether a row matches (location, wildcard) and its
+// callers count a parsed row as "record found" before the sampler ever sees the weight. A branch in the parser whose
+// condition is derived from the weight it has just read (seed c11k: weight 0 => ErrZeroWeight) makes existence depend
+// on the weight: a name whose addresses are all drained becomes NXDOMAIN. Decided on SSA: in db.ExtractRRFromRow no
+// conditional branch's condition is derived from the value stored into ResourceRecord.Weight or from a load of it.
+func c11WeightNotAFilter(c *Ctx) {
+	rule := "C11.weight-not-a-filter"
+	c.Rule(rule, "A8 on SSA: in db.ExtractRRFromRow no If condition is derived from the value stored into, or loaded from, ResourceRecord.Weight (the weight reaches only the sampler)")
+	fW := c.Field("db", "ResourceRecord", "Weight")
+	fn := c.Func("db", "ExtractRRFromRow")
+	c.Examined(fn)
+	weights := map[ssa.Value]bool{}
+	stores := 0
+	for _, b := range fn.Blocks {
+		for _, in := range b.Instrs {
+			switch x := in.(type) {
+			case *ssa.Store:
+				if fa, ok := x.Addr.(*ssa.FieldAddr); ok && fieldOf(fa) == fW {
+					weights[x.Val] = true
+					stores++
+				}
+			case *ssa.UnOp:
+				if fa, ok := x.X.(*ssa.FieldAddr); ok && x.Op == token.MUL && fieldOf(fa) == fW {
+					weights[x] = true
+				}
+			case *ssa.Field:
+				if fieldOf(x) == fW {
+					weights[x] = true
+				}
+			}
+		}
+	}
+	var bad []string
+	for _, b := range fn.Blocks {
+		if len(b.Instrs) == 0 {
+			continue
+		}
+		iff, ok := b.Instrs[len(b.Instrs)-1].(*ssa.If)
+		if !ok {
+			continue
+		}
+		for v := range backSlice(iff.Cond, func(v ssa.Value) bool {
+			if weights[v] {
+				return true
+			}
+			switch v.(type) {
+			case *ssa.Alloc, *ssa.FieldAddr: // field-sensitive: loads of other fields of the record are not the weight
+				return true
+			}
+			if u, ok := v.(*ssa.UnOp); ok && u.Op == token.MUL {
+				return true
+			}
+			return false
+		}) {
+			if weights[v] {
+				pos := iff.Cond.Pos()
+				bad = append(bad, c.relPos(pos))
+				break
+			}
+		}
+	}
+	c.Check(rule, fnName(fn)+"|no-branch-on-weight", len(bad) == 0 && stores > 0, fn.Pos(), fmt.Sprintf("%d stores to Weight; branches on the weight at %v", stores, bad))
+}
